@@ -539,6 +539,61 @@ func init() {
 		}
 		return []any{s / float64(len(vs))}
 	}), func(b *B) ro.Observable[float64] { return ro.Average[int]()(b.S(0)) })
+	// narrow element types: the mean is representable although the sum of the elements is not
+	bEntry("Average[int8](×60)", AggCtx, magg(func(vs []int) []any {
+		if len(vs) == 0 {
+			return []any{math.NaN()}
+		}
+		s := 0.0
+		for _, v := range vs {
+			s += float64(int8(v * 60))
+		}
+		return []any{s / float64(len(vs))}
+	}), func(b *B) ro.Observable[float64] {
+		return ro.Average[int8]()(ro.Map(func(x int) int8 { return int8(x * 60) })(b.S(0)))
+	})
+	bEntry("Average[uint8](×100)", AggCtx, magg(func(vs []int) []any {
+		if len(vs) == 0 {
+			return []any{math.NaN()}
+		}
+		s := 0.0
+		for _, v := range vs {
+			s += float64(uint8(v * 100))
+		}
+		return []any{s / float64(len(vs))}
+	}), func(b *B) ro.Observable[float64] {
+		return ro.Average[uint8]()(ro.Map(func(x int) uint8 { return uint8(x * 100) })(b.S(0)))
+	})
+	f32 := func(x int) float32 {
+		if x == 1 {
+			return 16777216
+		}
+		return float32(x)
+	}
+	bEntry("Average[float32](2^24)", AggCtx, magg(func(vs []int) []any {
+		if len(vs) == 0 {
+			return []any{math.NaN()}
+		}
+		s := 0.0
+		for _, v := range vs {
+			s += float64(f32(v))
+		}
+		return []any{s / float64(len(vs))}
+	}), func(b *B) ro.Observable[float64] {
+		return ro.Average[float32]()(ro.Map(f32)(b.S(0)))
+	})
+	bEntry("Average[int64](max)", AggCtx, magg(func(vs []int) []any {
+		if len(vs) == 0 {
+			return []any{math.NaN()}
+		}
+		s := 0.0
+		for _, v := range vs {
+			s += float64(int64(math.MaxInt64) - int64(v))
+		}
+		return []any{s / float64(len(vs))}
+	}), func(b *B) ro.Observable[float64] {
+		return ro.Average[int64]()(ro.Map(func(x int) int64 { return math.MaxInt64 - int64(x) })(b.S(0)))
+	})
 	opEntry("Clamp", 0, mmap(func(x, i int) any {
 		if x < 1 {
 			return 1
